@@ -126,6 +126,30 @@ func discoverRunners(c *Ctx) []*r3Runner {
 						}
 					}
 				}
+				// … or hands it to a same-package helper that receives from the corresponding parameter
+				// (the wait for the predecessor extracted into a function)
+				if call, ok := n.(*ast.CallExpr); ok {
+					if f, _ := typeutil.Callee(d.Pkg.TypesInfo, call).(*types.Func); f != nil && f.Pkg() == d.Obj.Pkg() {
+						if hd := c.Prog.Decl(f.Origin()); hd != nil && hd != d {
+							hps := paramVars(hd)
+							for ai, arg := range call.Args {
+								aid, ok := unparen(arg).(*ast.Ident)
+								if !ok || d.Pkg.TypesInfo.Uses[aid] != types.Object(p) || ai >= len(hps) || hps[ai] == nil {
+									continue
+								}
+								hp := hps[ai]
+								ast.Inspect(hd.Decl.Body, func(m ast.Node) bool {
+									if u, ok := m.(*ast.UnaryExpr); ok && u.Op == token.ARROW {
+										if id, ok := unparen(u.X).(*ast.Ident); ok && hd.Pkg.TypesInfo.Uses[id] == types.Object(hp) {
+											recvs = true
+										}
+									}
+									return true
+								})
+							}
+						}
+					}
+				}
 				return true
 			})
 			if closes && r.eIdx < 0 {
@@ -272,9 +296,10 @@ func nilTest(ev *core.Event, v *types.Var) (bool, bool) {
 		return false, false
 	}
 	var other ast.Expr
-	if identVar(b.X, ev.Frame) == v {
+	// (a parameter of an inlined helper bound to v stands for v)
+	if identVar(b.X, ev.Frame) == v || aliasOf(nil, ev, b.X) == v {
 		other = b.Y
-	} else if identVar(b.Y, ev.Frame) == v {
+	} else if identVar(b.Y, ev.Frame) == v || aliasOf(nil, ev, b.Y) == v {
 		other = b.X
 	} else {
 		return false, false
@@ -288,7 +313,23 @@ func nilTest(ev *core.Event, v *types.Var) (bool, bool) {
 func (s *r3State) r3a(r *r3Runner) {
 	c := s.c
 	name := core.FuncName(r.decl.Obj)
-	cfg := &core.Config{}
+	// unexported same-package helpers are walked in place (the wait may live in one); a parameter of
+	// such a helper bound to the runner's W stands for W
+	cfg := &core.Config{Follow: func(f *types.Func) bool {
+		if f.Pkg() != r.decl.Obj.Pkg() || f.Exported() || f.Origin() == r.decl.Obj {
+			return false
+		}
+		sig, ok := f.Type().(*types.Signature)
+		if !ok {
+			return false
+		}
+		for i := 0; i < sig.Params().Len(); i++ {
+			if isChanType(sig.Params().At(i).Type()) {
+				return true // a helper that is handed a channel: the wait for the predecessor may live there
+			}
+		}
+		return false
+	}}
 	c.Walk("R3a", cfg, core.Entry{Decl: r.decl}, func(p *core.Path) {
 		received, wNil := false, false
 		for _, ev := range p.Events {
@@ -298,7 +339,7 @@ func (s *r3State) r3a(r *r3Runner) {
 					wNil = true
 				}
 			case core.KRecv:
-				if identVar(ev.Chan, ev.Frame) == r.w {
+				if identVar(ev.Chan, ev.Frame) == r.w || aliasOf(p, ev, ev.Chan) == r.w {
 					received = true
 				}
 			case core.KCall:
